@@ -251,15 +251,7 @@ func evalPureCase(w *engine.World, c PureCase) (observed, string, string) {
 	o := callCalculatePrice(w.App.FeedsKeeper, ctx, feed, infos, pq)
 	a, v, med := expectedOf(entries, c.Now, c.Interval, q, bonded)
 	fp, detail := judge(a, v, med, o)
-	fp = refine(fp, o, pureAlts(a, entries, c.Now, c.Interval, q, bonded))
 	return o, fp, detail
-}
-
-func pureAlts(a agg, entries []Entry, now, interval int64, q *big.Rat, bonded *big.Int) []altReading {
-	return []altReading{
-		{Name: "freshness:boundary-price-dropped", Applicable: a.boundarySeen, Entries: entries, Now: now, Interval: interval - 1, Q: q, Bonded: bonded},
-		{Name: "freshness:stale-price-counted", Applicable: a.staleSeen, Entries: entries, Now: now, Interval: 1 << 40, Q: q, Bonded: bonded},
-	}
 }
 
 // plainPowerMedian is the (lower) power-weighted median without recency weighting; only used to
@@ -437,7 +429,6 @@ func runPure(r *engine.Run, tally *engine.Tally, quick bool, deadline time.Time)
 					if fp == "" {
 						continue
 					}
-					fp = refine(fp, o, pureAlts(a, s.entries, now, cfg.Interval, qRat[qi], bondedBig))
 					q := cfg.Quorums[qi]
 					c.violate(idx, fp, func() (any, []string, string) {
 						return pureCase(cfg, now, s.entries, q, bondedBig), []string{"pure"}, detail
